@@ -18,7 +18,7 @@
 From Coq Require Import ZArith List Bool Lia.
 From BV Require Import Lib.PyVal Gen.K_heap Gen.G_heap Model.Heap.
 From BV Require Import Proofs.HeapLib Proofs.HeapIdx Proofs.HeapGeo Proofs.HeapRe Proofs.HeapInv Proofs.HeapProofs.
-From BV Require Import Model.HeapConc Proofs.HeapConcProofs Proofs.HeapConcGen.
+From BV Require Import Model.HeapConc Model.HeapFork Proofs.HeapConcProofs Proofs.HeapConcGen.
 Import ListNotations.
 Open Scope Z_scope.
 
@@ -405,4 +405,29 @@ Proof.
              intros c' E; vm_compute in E; inversion E; subst c'; clear E]).
     exact I. }
   split; [vm_compute; reflexivity|]. repeat split.
+Qed.
+
+(* ---- REFUTED: "from any thread" in a forked child ---------------------------------------------
+   In a forked child the first malloc re-initialises the inherited heap OUTSIDE the lock, and the first statement
+   of Heap.__init__ makes every other thread's `os.getpid() != self._lastpid` test pass (Model/HeapFork.v).
+   Witness: the parent's heap has the free hole [0,16) in its arena; thread 0 of the child has executed
+   `self._lastpid = os.getpid()` when thread 1 calls malloc(8): thread 1 is served from the PARENT's tables and gets
+   [0,8) of the parent's arena (memory shared with the parent, who will hand the same bytes out again);
+   thread 0 then empties the tables: the block thread 1 holds is in no arena of the heap and is not in
+   _allocated_blocks (its free() raises KeyError).  harness/heap_driver.py reproduces exactly this on the real code
+   (signature C14:fork-reinit-race).  What does hold is C14_fork_child: one thread. *)
+Theorem C14_fork_reinit_race_refuted :
+  exists inherited s b,
+    run 4096 (heap_init 4096) [Malloc 16; Malloc 16; Free (0, 0, 16)] = OK inherited /\
+    frun 4096 4096 (finherit inherited) [FSetPid; FMalloc 1 8; FResetRest; FMalloc 0 24] = Some (OK s) /\
+    In (1%nat, b) (f_out s) /\                       (* thread 1 holds b *)
+    b = inherited_block (0, 0, 8) /\                 (* the first bytes of the parent's arena *)
+    b_arena b < 0 /\                                 (* an arena the child's heap does not list *)
+    ~ In b (alloc (f_heap s)) /\                     (* not recorded as live *)
+    free (f_heap s) b = Err KeyError.                (* and cannot be freed *)
+Proof.
+  eexists. eexists. eexists.
+  split; [vm_compute; reflexivity|]. split; [vm_compute; reflexivity|].
+  split; [left; reflexivity|]. split; [reflexivity|]. split; [reflexivity|].
+  split; [cbn; intros [H|[]]; discriminate H|]. vm_compute. reflexivity.
 Qed.
